@@ -656,6 +656,9 @@ fn file_key(path: &Path) -> Option<Vec<u8>> {
 }
 
 struct HostRow {
+    rel: String,
+    is_dir: bool,
+    is_file: bool,
     key: Vec<u8>,
     dev: u64,
     ino: u64,
@@ -663,21 +666,22 @@ struct HostRow {
 }
 
 fn walk(root: &Path, out: &mut Vec<HostRow>) {
-    fn rec(p: &Path, out: &mut Vec<HostRow>) {
+    fn rec(root: &Path, p: &Path, out: &mut Vec<HostRow>) {
         if let (Ok(md), Some(key)) = (std::fs::symlink_metadata(p), file_key(p)) {
-            out.push(HostRow { key, dev: md.dev(), ino: md.ino(), nlink: md.nlink() });
+            let rel = p.strip_prefix(root).map(|r| r.to_string_lossy().to_string()).unwrap_or_default();
+            out.push(HostRow { rel, is_dir: md.is_dir(), is_file: md.is_file(), key, dev: md.dev(), ino: md.ino(), nlink: md.nlink() });
             if md.is_dir() {
                 if let Ok(rd) = std::fs::read_dir(p) {
                     let mut names: Vec<PathBuf> = rd.flatten().map(|e| e.path()).collect();
                     names.sort();
                     for n in names {
-                        rec(&n, out);
+                        rec(root, &n, out);
                     }
                 }
             }
         }
     }
-    rec(root, out)
+    rec(root, root, out)
 }
 
 /// open descriptors of this process (the descriptor used for the census itself excluded); (count, highest, dense)
@@ -782,7 +786,11 @@ struct World {
     nums: Vec<u64>,
     hvals: Vec<u64>,
     /// path (relative to root) the client reached a directory/file number by; "" = root
-    paths: HashMap<u64, String>,
+    /// identity (file-handle bytes) of the host object each number was first delivered for; where that object lives
+    /// NOW is looked up in the latest stat walk (`cur`), so renames need no tracking
+    keys: HashMap<u64, Vec<u8>>,
+    /// latest walk: (path relative to root, identity, is_dir, is_regular)
+    cur: Vec<(String, Vec<u8>, bool, bool)>,
     fkeys: HashMap<Vec<u8>, u32>,
     by_ino: HashMap<(u64, u64), u32>,
     last_host: Vec<(u32, u64)>,
@@ -795,6 +803,8 @@ struct World {
     last_listing: usize,
     /// offsets learned per directory number: name -> (off, index) and the order
     last_status: String,
+    /// id of the number the last entry-returning operation delivered (0: none)
+    last_ino_ret: usize,
 }
 
 impl World {
@@ -850,12 +860,28 @@ impl World {
             self.root.join(rel)
         }
     }
+    /// where the host object number k was delivered for lives now (None: it has no name any more)
+    fn rel_of(&self, k: u64) -> Option<String> {
+        let key = self.keys.get(&k)?;
+        self.cur.iter().find(|r| &r.1 == key).map(|r| r.0.clone())
+    }
+    fn is_dir_num(&self, k: u64) -> bool {
+        self.keys.get(&k).and_then(|key| self.cur.iter().find(|r| &r.1 == key)).map(|r| r.2).unwrap_or(false)
+    }
+    fn is_file_num(&self, k: u64) -> bool {
+        self.keys.get(&k).and_then(|key| self.cur.iter().find(|r| &r.1 == key)).map(|r| r.3).unwrap_or(false)
+    }
+    fn refresh(&mut self) {
+        let mut rows = Vec::new();
+        walk(&self.root.clone(), &mut rows);
+        self.cur = rows.iter().map(|r| (r.rel.clone(), r.key.clone(), r.is_dir, r.is_file)).collect();
+    }
     fn child_rel(&self, p: u64, name: &str) -> Option<String> {
-        let base = self.paths.get(&p)?;
-        // "." and ".." are resolved lexically (no directory symlinks in the trees), so that recorded paths stay
-        // plain and follow renames; the server maps ".." at the root to "."
+        let base = self.rel_of(p)?;
+        // "." and ".." are resolved lexically (no directory symlinks in the trees); the server maps ".." at the
+        // root to "."
         if name == "." {
-            return Some(base.clone());
+            return Some(base);
         }
         if name == ".." {
             return Some(match base.rfind('/') {
@@ -864,6 +890,17 @@ impl World {
             });
         }
         Some(if base.is_empty() { name.to_string() } else { format!("{base}/{name}") })
+    }
+    /// remember which host object number k stands for (first delivery wins)
+    fn learn(&mut self, k: u64, p: u64, name: &str) {
+        if self.keys.contains_key(&k) {
+            return;
+        }
+        if let Some(rel) = self.child_rel(p, name) {
+            if let Some(key) = file_key(&self.host_path(&rel)) {
+                self.keys.insert(k, key);
+            }
+        }
     }
     /// file id of the host object at path(p)/name (0 = none)
     fn file_id_at(&mut self, p: u64, name: &str) -> u32 {
@@ -878,6 +915,7 @@ impl World {
     fn host(&mut self, force: bool) {
         let mut rows = Vec::new();
         walk(&self.root.clone(), &mut rows);
+        self.cur = rows.iter().map(|r| (r.rel.clone(), r.key.clone(), r.is_dir, r.is_file)).collect();
         let mut cur: Vec<(u32, u64)> = Vec::new();
         for r in rows {
             let id = self.file_id_of_key(r.key);
@@ -924,7 +962,7 @@ impl World {
         let k = self.num(did);
         let mut names = Vec::new();
         let mut raw = Vec::new();
-        if let Some(rel) = self.paths.get(&k).cloned() {
+        if let Some(rel) = self.rel_of(k) {
             // the host's own stream (plain getdents64 on a descriptor of ours, closed before the next census)
             for (name, typ, off) in raw_getdents(&self.host_path(&rel)) {
                 if name != "." && name != ".." {
@@ -991,22 +1029,6 @@ impl World {
             "rmdir" => ev["status"] = json!(st(&self.injected(fa, |c| c.rmdir(p, &o.name)))),
             "rename" => {
                 let r = self.injected(fa, |c| c.rename(p, &o.name, p2, &o.name2));
-                if r.is_ok() {
-                    // the client's own knowledge of where the numbers it holds now live
-                    if let (Some(from), Some(to)) = (self.child_rel(p, &o.name), self.child_rel(p2, &o.name2)) {
-                        // whatever was at the target is replaced: the numbers recorded there no longer live at that path
-                        if from != to {
-                            self.paths.retain(|_, v| *v != to && !v.starts_with(&format!("{to}/")));
-                        }
-                        for v in self.paths.values_mut() {
-                            if *v == from {
-                                *v = to.clone();
-                            } else if v.starts_with(&format!("{from}/")) {
-                                *v = format!("{to}{}", &v[from.len()..]);
-                            }
-                        }
-                    }
-                }
                 ev["status"] = json!(st(&r));
             }
             "open" | "opendir" => {
@@ -1038,9 +1060,9 @@ impl World {
             match r {
                 Ok((k, _s)) => {
                     let id = self.ino_id(k);
-                    if let Some(rel) = self.child_rel(if o.op == "link" { p } else { p }, &o.name) {
-                        self.paths.entry(k).or_insert(rel);
-                    }
+                    // the operation may have created the object: look at the host again before identifying it
+                    self.refresh();
+                    self.learn(k, p, &o.name);
                     ev["ino_ret"] = json!(id);
                     ev["file_id"] = json!(self.file_id_at(p, &o.name));
                 }
@@ -1051,6 +1073,7 @@ impl World {
             ev["h_ret"] = json!(self.h_id(hh));
         }
         self.last_status = ev["status"].as_str().unwrap_or("").to_string();
+        self.last_ino_ret = ev["ino_ret"].as_u64().unwrap_or(0) as usize;
         self.emit(ev);
         self.host(false);
         self.probe_res();
@@ -1069,9 +1092,7 @@ impl World {
                 for e in &rep.ents {
                     let (iid, fid) = if o.plus {
                         let iid = self.ino_id(e.nodeid);
-                        if let Some(rel) = self.child_rel(d, &e.name) {
-                            self.paths.entry(e.nodeid).or_insert(rel);
-                        }
+                        self.learn(e.nodeid, d, &e.name);
                         (iid, self.file_id_at(d, &e.name))
                     } else {
                         (0, 0)
@@ -1157,10 +1178,11 @@ fn rand_refs(w: &mut World, seed: u64, steps: u64) {
         let mut dirs: Vec<usize> = vec![1];
         let mut files: Vec<usize> = Vec::new();
         for (i, k) in w.nums.iter().enumerate().skip(1) {
-            if let Some(rel) = w.paths.get(k) {
-                match std::fs::symlink_metadata(w.host_path(rel)) {
-                    Ok(md) if md.is_dir() => dirs.push(i + 1),
-                    _ => files.push(i + 1),
+            if w.rel_of(*k).is_some() {
+                if w.is_dir_num(*k) {
+                    dirs.push(i + 1)
+                } else {
+                    files.push(i + 1)
                 }
             }
         }
@@ -1263,7 +1285,7 @@ fn quiesce(w: &mut World) {
             }
             let k = w.num(id);
             let h = w.hval(hid);
-            let is_dir = w.paths.get(&k).map(|r| w.host_path(r).is_dir()).unwrap_or(false);
+            let is_dir = w.is_dir_num(k);
             let r = if is_dir { w.cli.releasedir(k, h) } else { w.cli.release(k, h) };
             let r2 = if r.is_err() { if is_dir { w.cli.release(k, h) } else { w.cli.releasedir(k, h) } } else { r };
             if r2.is_ok() {
@@ -1295,12 +1317,10 @@ fn rand_res(w: &mut World, seed: u64, steps: u64) {
         let mut dirs: Vec<usize> = vec![1];
         let mut files: Vec<usize> = Vec::new();
         for (i, k) in w.nums.iter().enumerate().skip(1) {
-            if let Some(rel) = w.paths.get(k) {
-                match std::fs::symlink_metadata(w.host_path(rel)) {
-                    Ok(md) if md.is_dir() => dirs.push(i + 1),
-                    Ok(md) if md.is_file() => files.push(i + 1),
-                    _ => {}
-                }
+            if w.is_dir_num(*k) {
+                dirs.push(i + 1)
+            } else if w.is_file_num(*k) {
+                files.push(i + 1)
             }
         }
         let mut o = Op::new("lookup");
@@ -1382,7 +1402,7 @@ fn rand_res(w: &mut World, seed: u64, steps: u64) {
         w.exec(&o);
         if w.hvals.len() > nh && matches!(o.op.as_str(), "open" | "opendir" | "create") {
             // the number the handle belongs to: open/opendir -> o.p; create -> the returned number (last id seen)
-            let id = if o.op == "create" { w.paths.iter().find(|(_, r)| Some((*r).clone()) == w.child_rel(w.num(o.p), &o.name)).map(|(k, _)| w.nums.iter().position(|x| x == k).unwrap() + 1).unwrap_or(0) } else { o.p };
+            let id = if o.op == "create" { w.last_ino_ret } else { o.p };
             live.push((id, w.hvals.len(), o.op == "opendir"));
         }
         if (o.op == "release" || o.op == "releasedir") && w.last_status == "OK" {
@@ -1651,7 +1671,8 @@ fn run_scenario(s: &Scen, work: &Path, part: &str, seg: u64, abi: Option<&str>) 
         root: root.clone(),
         nums: vec![ROOT],
         hvals: vec![],
-        paths: HashMap::new(),
+        keys: HashMap::new(),
+        cur: Vec::new(),
         fkeys: HashMap::new(),
         by_ino: HashMap::new(),
         last_host: vec![],
@@ -1662,8 +1683,12 @@ fn run_scenario(s: &Scen, work: &Path, part: &str, seg: u64, abi: Option<&str>) 
         last_listing: 0,
         sparse_probes: matches!(s.kind, ScenKind::RandDir(..) | ScenKind::DirPattern(..)),
         last_status: String::new(),
+        last_ino_ret: 0,
     };
-    w.paths.insert(ROOT, String::new());
+    if let Some(k) = file_key(&root) {
+        w.keys.insert(ROOT, k);
+    }
+    w.refresh();
     let (fds, _, dense) = fd_census();
     let (a, b, c) = w.cli.sizes();
     let kind = match &s.kind {
